@@ -152,3 +152,96 @@ def run(facts, rep, tpath="app::conv2d::Conv2dHelper", floor=0):
                           (pshow(w), pshow(x), pshow(o), pshow(diff)), where)
     rep.floor(R, "packed-convolution identities", n, floor)
     return n
+
+
+def run_tiles(facts, rep, tpath="app::conv2d::Conv2dHelper"):
+    """R-CONVIDX(tiles) [N]: the order in which the input encoder emits the sub-images of a split image is the order the
+    output side assumes when it recovers the tile coordinates from the flat group index.
+
+    encode_inputs_* pushes one group per tile inside nested counted loops; within a batch block the flat index of a tile is
+    outer * count(inner) + inner, so the INNERMOST tile loop is the fast coordinate.  decrypt_outputs_* / encode_outputs_*
+    recover the coordinates as  fast = eb % D,  slow = (eb % (..)) / D.  Each count is tagged by the image dimension its
+    definition reads (image_height* -> H, image_width* -> W); the fast coordinate must be the same dimension on both sides.
+    When they differ, every shape that is split along both dimensions has its output tiles written at transposed positions
+    (or dropped by the range guard); shapes split along at most one dimension — all the suite uses — are unaffected."""
+    RT = "R-CONVIDX(tiles)"
+    rep.rule(RT, "the fast tile coordinate of the input encoder's emission order (innermost tile loop) is the dimension the "
+             "output side takes as `eb % count`")
+    ms = {facts.items[p]["name"]: p for p in facts.methods_of(tpath)}
+
+    def dim_of(defs, e):
+        fs = {y["name"] for y in defs.closure(e) if y.get("k") == "Field"}
+        h = any(f.startswith("image_height") for f in fs)
+        w = any(f.startswith("image_width") for f in fs)
+        return "H" if h and not w else ("W" if w and not h else None)
+    n = 0
+    for sfx in ("bfv", "ckks"):
+        enc = ms.get("encode_inputs_" + sfx)
+        if not rep.anchor(RT, "%s::encode_inputs_%s" % (tpath, sfx), enc is not None):
+            continue
+        rep.fn(enc)
+        n += 1
+        body = facts.hir[enc]
+        defs = Defs(body)
+        from facts import Tree
+        tree = Tree(body)
+        # the push into the returned collection: the push whose argument is itself a Vec of encoded plaintexts, i.e. the
+        # outermost `push` (fewest enclosing loops)
+        pushes = [x for x in walk(body) if x.get("k") == "MCall" and x.get("name") == "push"]
+        if not pushes:
+            rep.unresolved(RT, "encode_inputs_%s/order" % sfx, "no push found", facts.loc(enc))
+            continue
+
+        def tile_loops(x):
+            out = []
+            for a in tree.ancestors(x):
+                if a.get("k") == "For":
+                    it = strip(a["iter"])
+                    if it.get("k") == "Struct" and "ops::Range" in it.get("path", ""):
+                        d = {f["name"]: f["e"] for f in it["fields"]}
+                        if "end" in d:
+                            out.append((a, dim_of(defs, d["end"])))
+            return out           # innermost first
+        cand = sorted(pushes, key=lambda x: len([a for a in tree.ancestors(x) if a.get("k") in ("For", "While", "Loop")]))
+        loops = tile_loops(cand[0])
+        dims = [d for _, d in loops]
+        key_e = "encode_inputs_%s" % sfx
+        if len(loops) < 2 or None in dims[:2] or dims[0] == dims[1]:
+            rep.unresolved(RT, key_e + "/order", "tile loops around the group push not recognised (dims %s)" % dims, facts.loc(enc))
+            continue
+        enc_fast = dims[0]
+        for side in ("decrypt_outputs_", "encode_outputs_"):
+            dec = ms.get(side + sfx)
+            if dec is None:
+                continue
+            rep.fn(dec)
+            b2 = facts.hir[dec]
+            d2 = Defs(b2)
+            t2 = Tree(b2)
+            fast = None
+            for x in walk(b2):
+                if x.get("k") == "Bin" and x.get("op") == "%" and local_of(x["a"]) and local_of(x["b"]):
+                    up = t2.up(x) if hasattr(t2, "up") else None
+                    while up is not None and up.get("k") in ("Block", "Cast") and not up.get("stmts"):
+                        up = t2.up(up)
+                    if up is not None and up.get("k") == "Bin" and up.get("op") == "/":
+                        continue
+                    # the left operand must be a counted loop variable (the flat group index)
+                    is_loopvar = any(y.get("k") == "For" and y["pat"].get("k") == "PBind" and y["pat"]["lid"] == local_of(x["a"])[0]
+                                     for y in walk(b2))
+                    if is_loopvar:
+                        fast = (x, dim_of(d2, x["b"]))
+            key = "%s%s/fast-coordinate" % (side, sfx)
+            if fast is None or fast[1] is None:
+                rep.unresolved(RT, key, "no `group index %% count` form with a dimension-tagged count found", facts.loc(dec))
+            elif fast[1] == enc_fast:
+                rep.ok(RT, key, "encoder emits tiles with %s as the fast coordinate; %s%s takes `index %% count(%s)`" %
+                       (enc_fast, side, sfx, fast[1]), facts.loc(dec, fast[0]), sample={"fast": enc_fast})
+            else:
+                rep.violation(RT, key, "encode_inputs_%s emits the sub-images with the %s tile index as the fast coordinate (innermost "
+                              "loop), but %s%s recovers the fast coordinate as `index %% count(%s)`: for every image split along both "
+                              "dimensions the output tiles are read at transposed tile positions" %
+                              (sfx, "height" if enc_fast == "H" else "width", side, sfx, "height" if fast[1] == "H" else "width"),
+                              facts.loc(dec, fast[0]))
+    rep.floor(RT, "input encoders examined for tile order", n, 2)
+    return n
